@@ -33,7 +33,8 @@ deriving DecidableEq, Repr
 inductive Kind | connect | disc (expected : Bool) | startCall | stopCall
 deriving DecidableEq, Repr
 
-inductive Pc | lockWait | inStart | inFinish | done
+/-- where a task is: `running` only while it executes (never between two events) -/
+inductive Pc | running | lockWait | inStart | inFinish | done
 deriving DecidableEq, Repr
 
 /-- a task is identified by its position in `St.tasks` (creation order) -/
@@ -184,7 +185,7 @@ def connectLocked (s : St) (tid : Nat) : St :=
 /-- a new eager connect task -/
 def spawnConnect (s : St) : St :=
   let tid := s.tasks.length
-  let s := { s with tasks := s.tasks ++ [{ kind := .connect, pc := .done }] }
+  let s := { s with tasks := s.tasks ++ [{ kind := .connect, pc := .running }] }
   let (s, got) := acquire s tid
   let s := if got then connectLocked s tid else s
   { s with connectTask := some tid }
@@ -226,7 +227,7 @@ def lockedBody (s : St) (tid : Nat) (k : Kind) : St :=
 
 def spawn (s : St) (k : Kind) : St :=
   let tid := s.tasks.length
-  let s := { s with tasks := s.tasks ++ [{ kind := k, pc := .done }] }
+  let s := { s with tasks := s.tasks ++ [{ kind := k, pc := .running }] }
   let (s, got) := acquire s tid
   if got then lockedBody s tid k else s
 
@@ -236,7 +237,7 @@ def removeWaiter (s : St) (tid : Nat) : St := { s with waiters := s.waiters.filt
 
 def wakeTask (s : St) (tid : Nat) (t : Task) : St :=
   match t.pc with
-  | .done => s
+  | .done | .running => s
   | .lockWait =>
     let cancelledFut := s.waiters.any (fun w => w.1 = tid ∧ w.2 = .cancelled)
     let grantedFut := s.waiters.any (fun w => w.1 = tid ∧ w.2 = .granted)
@@ -244,7 +245,8 @@ def wakeTask (s : St) (tid : Nat) (t : Task) : St :=
       -- CancelledError out of `Lock.acquire`: pass the grant on, the task ends cancelled
       let s := removeWaiter s tid
       finish (if s.locked then s else wakeUpFirst s) tid
-    else if grantedFut then lockedBody { removeWaiter s tid with locked := true } tid t.kind
+    else if grantedFut then
+      lockedBody (setTask { removeWaiter s tid with locked := true } tid (fun t => { t with pc := .running })) tid t.kind
     else s   -- a task is only woken once its future is done
   | .inStart =>
     if t.mustCancel then afterFail (handleFailure { s with cli := .idle } .other) tid
